@@ -486,6 +486,23 @@ def mutations(rng, url, name, h, w, body, n_edit, with_posclass, names):
         if body:
             i = rng.randrange(len(body))
             yield "unicode-digit", url_of(prefix, name, ws, hs, body[:i] + d + body[i + 1:])
+    # escaped spellings of a genuine URL (what a pasted link looks like after a browser / form / HTML layer):
+    # the decoders take the text literally, so these must be rejected or decode to something re-encodable
+    if body:
+        idxs = sorted(set([0, len(body) - 1] + [rng.randrange(len(body)) for _ in range(3)]))
+        specials = [i for i, ch in enumerate(body) if not ch.isalnum()]
+        for i in idxs + specials[:4]:
+            ch = body[i]
+            yield "escaped", url_of(prefix, name, ws, hs, body[:i] + "%%%02x" % ord(ch) + body[i + 1:])
+            yield "escaped", url_of(prefix, name, ws, hs, body[:i] + "%%%02X" % ord(ch) + body[i + 1:])
+        yield "escaped", url_of(prefix, name, ws, hs, "".join("%%%02X" % ord(ch) if not ch.isalnum() else ch for ch in body))
+        yield "escaped", url_of(prefix, name, ws, hs, "".join("%%%02x" % ord(ch) for ch in body))
+        yield "escaped", url_of(prefix, name, ws, hs, body.replace("+", " "))
+        yield "escaped", url_of(prefix, name, ws, hs, body.replace("+", "%2B").replace("-", "%2D").replace(".", "%2E"))
+        yield "escaped", url_of(prefix, name, ws, hs, body.replace("+", "&#43;").replace("-", "&#45;"))
+        yield "escaped", url_of(prefix, name, ws, hs, body.replace("-", "+"))
+    yield "escaped", url.replace("?", "%3F", 1)
+    yield "escaped", url.replace("/", "%2F")
     yield "non-url", body
     yield "non-url", "see " + url
     yield "non-url", ""
